@@ -320,9 +320,15 @@ def _block_types(body):
     return out
 
 
-def type_list(m):
-    """[(params tuple, results tuple)] as the reference assembler numbers them"""
-    types = [(tuple(t for _, t in ty["params"]), tuple(ty["results"])) for ty in m.types]
+def type_list(m, merge_explicit=False):
+    """[(params tuple, results tuple)] as the reference assembler numbers them.
+    merge_explicit: equal explicit (type …) definitions share one index (what Wa's assembler does; used only to
+    compare CODE bytes independently of that listed difference)"""
+    types = []
+    for ty in m.types:
+        sig = (tuple(t for _, t in ty["params"]), tuple(ty["results"]))
+        if not (merge_explicit and sig in types):
+            types.append(sig)
 
     def use(sig):
         if sig not in types:
@@ -568,8 +574,10 @@ def is_operand(x):
     return isinstance(x, str) and not isinstance(x, Str) and (x.startswith("$") or x[:1].isdigit() or x[:1] in "+-")
 
 
-def encode_body(m, f, types):
-    """bytes of the instruction sequence of function record f (flat syntax), including the final `end`"""
+def encode_body(m, f, types, elide_empty_else=False):
+    """bytes of the instruction sequence of function record f (flat syntax), including the final `end`.
+    elide_empty_else: write nothing for an `else` that is immediately followed by `end` (Wa's AST cannot
+    represent an empty else branch; the two encodings mean the same)"""
     out = bytearray()
     body = f["body"]
     labels = []
@@ -620,6 +628,8 @@ def encode_body(m, f, types):
                 out.append(VTCODE[res[0]])
             else:
                 out += sleb(types.index(((), res)))
+        elif op == "else" and elide_empty_else and i < len(body) and body[i] == "end":
+            pass
         elif op == "end":
             if not labels:
                 raise WatError("unbalanced end")
@@ -720,9 +730,9 @@ def encode_body(m, f, types):
     return bytes(out)
 
 
-def encode_code_functions(m):
+def encode_code_functions(m, elide_empty_else=False, merge_explicit_types=False):
     """[bytes] — for every defined function: local declarations + body, WITHOUT the size prefix"""
-    types = type_list(m)
+    types = type_list(m, merge_explicit_types)
     outs = []
     for f in m.funcs:
         runs = []
@@ -732,7 +742,7 @@ def encode_code_functions(m):
             else:
                 runs.append([1, t])
         b = uleb(len(runs)) + b"".join(uleb(n) + bytes([VTCODE[t]]) for n, t in runs)
-        outs.append(b + encode_body(m, f, types))
+        outs.append(b + encode_body(m, f, types, elide_empty_else))
     return outs
 
 
